@@ -211,6 +211,41 @@ macro_rules! pc_body {
     }};
 }
 
+/// R3 on the integer parser (same skip iterators, far less code than the float tokenizer): for strings over
+/// {digit, separator} the complete parser accepts exactly when every separator run stands in an enabled position, and the
+/// value is that of the digits.
+pub fn cmp_sep_grammar_int<const F: u128>(s: &[u8]) -> Result<(), &'static str> {
+    use lexical_parse_integer::FromLexicalWithOptions;
+    if s.is_empty() { return Ok(()); }
+    let mut i = 0;
+    while i < s.len() { if !((s[i] >= b'0' && s[i] <= b'9') || s[i] == SEP) { return Ok(()); } i += 1; }
+    let (ok, nd, has_sep) = comp_ok(s, F, 0);
+    if has_sep && nd == 0 { return Ok(()); }            // no claim for separator-only inputs
+    let mut want_v: u64 = 0; let mut k = 0;
+    while k < s.len() { if s[k] != SEP { want_v = want_v * 10 + (s[k] - b'0') as u64; } k += 1; }
+    let opts = lexical_parse_integer::Options::new();
+    match u64::from_lexical_with_options::<F>(s, &opts) {
+        Ok(v) => { if !ok { return Err("R3 (integer): accepted although a separator stands in a position the flags do not enable"); }
+                   if v != want_v { return Err("R1 (integer): separators change the value"); } },
+        Err(_) => { if ok && nd > 0 { return Err("R3 (integer): rejected although every separator stands in an enabled position"); } },
+    }
+    Ok(())
+}
+
+macro_rules! grammar_int_body {
+    ($F:expr, $L:expr) => {{
+        const F: u128 = $F;
+        let bytes: [u8; $L] = any();
+        let len: usize = any();
+        assume(len <= $L);
+        let mut i = 0;
+        while i < $L { let c = bytes[i]; assume(c == b'0' || c == b'7' || c == b'_'); i += 1; }
+        let r = cmp_sep_grammar_int::<F>(&bytes[..len]);
+        vcheck!(r.is_ok(), "integer parser: accepted <=> every separator run stands in an enabled position; value unchanged");
+        cover(len == $L);
+    }};
+}
+
 macro_rules! grammar_body {
     ($F:expr, $L:expr) => {{
         const F: u128 = $F;
@@ -230,6 +265,159 @@ macro_rules! grammar_body {
 }
 
 crate::harnesses! {
+    /// separator-position grammar on the INTEGER parser, separators enabled for the fraction only (none valid in an integer): strings len <= 5 over {0 7 _}.
+    /// @prop C13
+    /// @feat format radix_format
+    /// @bound format F_FRAC_I; integer inputs of length <= 5 over {0 7 _}
+    /// @fn lexical-util::skip (component iterator `next`, `current_count`) via lexical-parse-integer::algorithm
+    /// @timeout 1200
+    #[cfg_attr(kani, kani::unwind(8))]
+    fn sep_grammar_int_frac_only() { grammar_int_body!(F_FRAC_I, 5) }
+
+    /// separator-position grammar on the INTEGER parser, separators enabled for the exponent only: strings len <= 5 over {0 7 _}.
+    /// @prop C13
+    /// @feat format radix_format
+    /// @bound format F_EXP_I; integer inputs of length <= 5 over {0 7 _}
+    /// @fn lexical-util::skip (component iterator `next`, `current_count`) via lexical-parse-integer::algorithm
+    /// @timeout 1200
+    #[cfg_attr(kani, kani::unwind(8))]
+    fn sep_grammar_int_exp_only() { grammar_int_body!(F_EXP_I, 5) }
+
+    /// separator-position grammar on the INTEGER parser, all separator flags for the integer component only: strings len <= 5 over {0 7 _}.
+    /// @prop C13
+    /// @feat format radix_format
+    /// @bound format F_INT_ILTC; integer inputs of length <= 5 over {0 7 _}
+    /// @fn lexical-util::skip (component iterator `next`, `current_count`) via lexical-parse-integer::algorithm
+    /// @timeout 1200
+    #[cfg_attr(kani, kani::unwind(8))]
+    fn sep_grammar_int_int_iltc() { grammar_int_body!(F_INT_ILTC, 5) }
+
+    /// separator-position grammar on the INTEGER parser, flags I: strings len <= 5 over {0 7 _}.
+    /// @prop C13
+    /// @feat format radix_format
+    /// @bound format F_I; integer inputs of length <= 5 over {0 7 _}
+    /// @fn lexical-util::skip::is_i! (@first/@internal) via peek_1/peek_n and lexical-parse-integer::algorithm
+    /// @timeout 1200
+    #[cfg_attr(kani, kani::unwind(8))]
+    fn sep_grammar_int_i() { grammar_int_body!(F_I, 5) }
+
+    /// separator-position grammar on the INTEGER parser, flags IC: strings len <= 5 over {0 7 _}.
+    /// @prop C13
+    /// @feat format radix_format
+    /// @bound format F_IC; integer inputs of length <= 5 over {0 7 _}
+    /// @fn lexical-util::skip::is_ic! (@first/@internal) via peek_1/peek_n and lexical-parse-integer::algorithm
+    /// @timeout 1200
+    #[cfg_attr(kani, kani::unwind(8))]
+    fn sep_grammar_int_ic() { grammar_int_body!(F_IC, 5) }
+
+    /// separator-position grammar on the INTEGER parser, flags L: strings len <= 5 over {0 7 _}.
+    /// @prop C13
+    /// @feat format radix_format
+    /// @bound format F_L; integer inputs of length <= 5 over {0 7 _}
+    /// @fn lexical-util::skip::is_l! (@first/@internal) via peek_1/peek_n and lexical-parse-integer::algorithm
+    /// @timeout 1200
+    #[cfg_attr(kani, kani::unwind(8))]
+    fn sep_grammar_int_l() { grammar_int_body!(F_L, 5) }
+
+    /// separator-position grammar on the INTEGER parser, flags LC: strings len <= 5 over {0 7 _}.
+    /// @prop C13
+    /// @feat format radix_format
+    /// @bound format F_LC; integer inputs of length <= 5 over {0 7 _}
+    /// @fn lexical-util::skip::is_lc! (@first/@internal) via peek_1/peek_n and lexical-parse-integer::algorithm
+    /// @timeout 1200
+    #[cfg_attr(kani, kani::unwind(8))]
+    fn sep_grammar_int_lc() { grammar_int_body!(F_LC, 5) }
+
+    /// separator-position grammar on the INTEGER parser, flags T: strings len <= 5 over {0 7 _}.
+    /// @prop C13
+    /// @feat format radix_format
+    /// @bound format F_T; integer inputs of length <= 5 over {0 7 _}
+    /// @fn lexical-util::skip::is_t! (@first/@internal) via peek_1/peek_n and lexical-parse-integer::algorithm
+    /// @timeout 1200
+    #[cfg_attr(kani, kani::unwind(8))]
+    fn sep_grammar_int_t() { grammar_int_body!(F_T, 5) }
+
+    /// separator-position grammar on the INTEGER parser, flags TC: strings len <= 5 over {0 7 _}.
+    /// @prop C13
+    /// @feat format radix_format
+    /// @bound format F_TC; integer inputs of length <= 5 over {0 7 _}
+    /// @fn lexical-util::skip::is_tc! (@first/@internal) via peek_1/peek_n and lexical-parse-integer::algorithm
+    /// @timeout 1200
+    #[cfg_attr(kani, kani::unwind(8))]
+    fn sep_grammar_int_tc() { grammar_int_body!(F_TC, 5) }
+
+    /// separator-position grammar on the INTEGER parser, flags IL: strings len <= 5 over {0 7 _}.
+    /// @prop C13
+    /// @feat format radix_format
+    /// @bound format F_IL; integer inputs of length <= 5 over {0 7 _}
+    /// @fn lexical-util::skip::is_il! (@first/@internal) via peek_1/peek_n and lexical-parse-integer::algorithm
+    /// @timeout 1200
+    #[cfg_attr(kani, kani::unwind(8))]
+    fn sep_grammar_int_il() { grammar_int_body!(F_IL, 5) }
+
+    /// separator-position grammar on the INTEGER parser, flags ILC: strings len <= 5 over {0 7 _}.
+    /// @prop C13
+    /// @feat format radix_format
+    /// @bound format F_ILC; integer inputs of length <= 5 over {0 7 _}
+    /// @fn lexical-util::skip::is_ilc! (@first/@internal) via peek_1/peek_n and lexical-parse-integer::algorithm
+    /// @timeout 1200
+    #[cfg_attr(kani, kani::unwind(8))]
+    fn sep_grammar_int_ilc() { grammar_int_body!(F_ILC, 5) }
+
+    /// separator-position grammar on the INTEGER parser, flags IT: strings len <= 5 over {0 7 _}.
+    /// @prop C13
+    /// @feat format radix_format
+    /// @bound format F_IT; integer inputs of length <= 5 over {0 7 _}
+    /// @fn lexical-util::skip::is_it! (@first/@internal) via peek_1/peek_n and lexical-parse-integer::algorithm
+    /// @timeout 1200
+    #[cfg_attr(kani, kani::unwind(8))]
+    fn sep_grammar_int_it() { grammar_int_body!(F_IT, 5) }
+
+    /// separator-position grammar on the INTEGER parser, flags ITC: strings len <= 5 over {0 7 _}.
+    /// @prop C13
+    /// @feat format radix_format
+    /// @bound format F_ITC; integer inputs of length <= 5 over {0 7 _}
+    /// @fn lexical-util::skip::is_itc! (@first/@internal) via peek_1/peek_n and lexical-parse-integer::algorithm
+    /// @timeout 1200
+    #[cfg_attr(kani, kani::unwind(8))]
+    fn sep_grammar_int_itc() { grammar_int_body!(F_ITC, 5) }
+
+    /// separator-position grammar on the INTEGER parser, flags LT: strings len <= 5 over {0 7 _}.
+    /// @prop C13
+    /// @feat format radix_format
+    /// @bound format F_LT; integer inputs of length <= 5 over {0 7 _}
+    /// @fn lexical-util::skip::is_lt! (@first/@internal) via peek_1/peek_n and lexical-parse-integer::algorithm
+    /// @timeout 1200
+    #[cfg_attr(kani, kani::unwind(8))]
+    fn sep_grammar_int_lt() { grammar_int_body!(F_LT, 5) }
+
+    /// separator-position grammar on the INTEGER parser, flags LTC: strings len <= 5 over {0 7 _}.
+    /// @prop C13
+    /// @feat format radix_format
+    /// @bound format F_LTC; integer inputs of length <= 5 over {0 7 _}
+    /// @fn lexical-util::skip::is_ltc! (@first/@internal) via peek_1/peek_n and lexical-parse-integer::algorithm
+    /// @timeout 1200
+    #[cfg_attr(kani, kani::unwind(8))]
+    fn sep_grammar_int_ltc() { grammar_int_body!(F_LTC, 5) }
+
+    /// separator-position grammar on the INTEGER parser, flags ILT: strings len <= 5 over {0 7 _}.
+    /// @prop C13
+    /// @feat format radix_format
+    /// @bound format F_ILT; integer inputs of length <= 5 over {0 7 _}
+    /// @fn lexical-util::skip::is_ilt! (@first/@internal) via peek_1/peek_n and lexical-parse-integer::algorithm
+    /// @timeout 1200
+    #[cfg_attr(kani, kani::unwind(8))]
+    fn sep_grammar_int_ilt() { grammar_int_body!(F_ILT, 5) }
+
+    /// separator-position grammar on the INTEGER parser, flags ILTC: strings len <= 5 over {0 7 _}.
+    /// @prop C13
+    /// @feat format radix_format
+    /// @bound format F_ALL; integer inputs of length <= 5 over {0 7 _}
+    /// @fn lexical-util::skip::is_iltc! (@first/@internal) via peek_1/peek_n and lexical-parse-integer::algorithm
+    /// @timeout 1200
+    #[cfg_attr(kani, kani::unwind(8))]
+    fn sep_grammar_int_iltc() { grammar_int_body!(F_ALL, 5) }
+
     /// partial vs complete tokenizer, flags LTC: strings len <= 3 over {0 7 _ . e x}.
     /// @prop C11 C13
     /// @feat format radix_format
@@ -276,6 +464,7 @@ crate::harnesses! {
 
     /// partial vs complete tokenizer, flags ILC: strings len <= 3 over {0 7 _ . e x}.
     /// @prop C11 C13
+    /// @tier thorough
     /// @feat format radix_format
     /// @bound format F_ILC; input length <= 3 over {0 7 _ . e x}
     /// @fn lexical-parse-float::parse::{parse_partial_number, parse_complete_number}
@@ -320,6 +509,7 @@ crate::harnesses! {
 
     /// partial vs complete tokenizer, flags ILT: strings len <= 3 over {0 7 _ . e x}.
     /// @prop C11 C13
+    /// @tier thorough
     /// @feat format radix_format
     /// @bound format F_ILT; input length <= 3 over {0 7 _ . e x}
     /// @fn lexical-parse-float::parse::{parse_partial_number, parse_complete_number}
@@ -342,6 +532,7 @@ crate::harnesses! {
 
     /// partial vs complete tokenizer, flags LT: strings len <= 3 over {0 7 _ . e x}.
     /// @prop C11 C13
+    /// @tier thorough
     /// @feat format radix_format
     /// @bound format F_LT; input length <= 3 over {0 7 _ . e x}
     /// @fn lexical-parse-float::parse::{parse_partial_number, parse_complete_number}
@@ -384,6 +575,7 @@ crate::harnesses! {
 
     /// separator-position grammar, flags IC (all components): strings len <= 4 over {0 7 _ . e}.
     /// @prop C13
+    /// @tier thorough
     /// @feat format radix_format
     /// @bound format F_IC; input length <= 4 over {0 7 _ . e}
     /// @fn lexical-util::skip::is_ic! (@first/@internal) via peek_1/peek_n and lexical-parse-float::parse::parse_number
@@ -404,6 +596,7 @@ crate::harnesses! {
 
     /// separator-position grammar, flags L (all components): strings len <= 4 over {0 7 _ . e}.
     /// @prop C13
+    /// @tier thorough
     /// @feat format radix_format
     /// @bound format F_L; input length <= 4 over {0 7 _ . e}
     /// @fn lexical-util::skip::is_l! (@first/@internal) via peek_1/peek_n and lexical-parse-float::parse::parse_number
@@ -424,6 +617,7 @@ crate::harnesses! {
 
     /// separator-position grammar, flags LC (all components): strings len <= 4 over {0 7 _ . e}.
     /// @prop C13
+    /// @tier thorough
     /// @feat format radix_format
     /// @bound format F_LC; input length <= 4 over {0 7 _ . e}
     /// @fn lexical-util::skip::is_lc! (@first/@internal) via peek_1/peek_n and lexical-parse-float::parse::parse_number
@@ -444,6 +638,7 @@ crate::harnesses! {
 
     /// separator-position grammar, flags T (all components): strings len <= 4 over {0 7 _ . e}.
     /// @prop C13
+    /// @tier thorough
     /// @feat format radix_format
     /// @bound format F_T; input length <= 4 over {0 7 _ . e}
     /// @fn lexical-util::skip::is_t! (@first/@internal) via peek_1/peek_n and lexical-parse-float::parse::parse_number
@@ -464,6 +659,7 @@ crate::harnesses! {
 
     /// separator-position grammar, flags TC (all components): strings len <= 4 over {0 7 _ . e}.
     /// @prop C13
+    /// @tier thorough
     /// @feat format radix_format
     /// @bound format F_TC; input length <= 4 over {0 7 _ . e}
     /// @fn lexical-util::skip::is_tc! (@first/@internal) via peek_1/peek_n and lexical-parse-float::parse::parse_number
@@ -484,6 +680,7 @@ crate::harnesses! {
 
     /// separator-position grammar, flags IL (all components): strings len <= 4 over {0 7 _ . e}.
     /// @prop C13
+    /// @tier thorough
     /// @feat format radix_format
     /// @bound format F_IL; input length <= 4 over {0 7 _ . e}
     /// @fn lexical-util::skip::is_il! (@first/@internal) via peek_1/peek_n and lexical-parse-float::parse::parse_number
@@ -504,6 +701,7 @@ crate::harnesses! {
 
     /// separator-position grammar, flags ILC (all components): strings len <= 4 over {0 7 _ . e}.
     /// @prop C13
+    /// @tier thorough
     /// @feat format radix_format
     /// @bound format F_ILC; input length <= 4 over {0 7 _ . e}
     /// @fn lexical-util::skip::is_ilc! (@first/@internal) via peek_1/peek_n and lexical-parse-float::parse::parse_number
@@ -524,6 +722,7 @@ crate::harnesses! {
 
     /// separator-position grammar, flags IT (all components): strings len <= 4 over {0 7 _ . e}.
     /// @prop C13
+    /// @tier thorough
     /// @feat format radix_format
     /// @bound format F_IT; input length <= 4 over {0 7 _ . e}
     /// @fn lexical-util::skip::is_it! (@first/@internal) via peek_1/peek_n and lexical-parse-float::parse::parse_number
@@ -564,6 +763,7 @@ crate::harnesses! {
 
     /// separator-position grammar, flags LT (all components): strings len <= 4 over {0 7 _ . e}.
     /// @prop C13
+    /// @tier thorough
     /// @feat format radix_format
     /// @bound format F_LT; input length <= 4 over {0 7 _ . e}
     /// @fn lexical-util::skip::is_lt! (@first/@internal) via peek_1/peek_n and lexical-parse-float::parse::parse_number
@@ -584,6 +784,7 @@ crate::harnesses! {
 
     /// separator-position grammar, flags LTC (all components): strings len <= 4 over {0 7 _ . e}.
     /// @prop C13
+    /// @tier thorough
     /// @feat format radix_format
     /// @bound format F_LTC; input length <= 4 over {0 7 _ . e}
     /// @fn lexical-util::skip::is_ltc! (@first/@internal) via peek_1/peek_n and lexical-parse-float::parse::parse_number
@@ -604,6 +805,7 @@ crate::harnesses! {
 
     /// separator-position grammar, flags ILT (all components): strings len <= 4 over {0 7 _ . e}.
     /// @prop C13
+    /// @tier thorough
     /// @feat format radix_format
     /// @bound format F_ILT; input length <= 4 over {0 7 _ . e}
     /// @fn lexical-util::skip::is_ilt! (@first/@internal) via peek_1/peek_n and lexical-parse-float::parse::parse_number
